@@ -147,6 +147,9 @@ func configureEncoder() (yqlib.Encoder, error) {
 	if err != nil {
 		return nil, err
 	}
+	if indent < 0 {
+		return nil, fmt.Errorf("indent must be zero or more, got %v", indent)
+	}
 	yqlib.ConfiguredXMLPreferences.Indent = indent
 	yqlib.ConfiguredYamlPreferences.Indent = indent
 	yqlib.ConfiguredJSONPreferences.Indent = indent
